@@ -20,9 +20,11 @@
 (*    accesses; two already distinguish "all from one publication");       *)
 (*  - cold starts (wipe) do not happen while a reader is attached:         *)
 (*    ShmSeg's NoReaderDuringWipe.                                         *)
-(* The actions are the ones of ShmSeg.tla (WOdd = WLoad;WStoreOdd, WWord,  *)
-(* WEven, WDie/Restart; RG1, RWord, RG2 with the three outcomes of the     *)
-(* second load), which the replay and trace bindings tie to the code.      *)
+(* The actions are the ones of ShmSeg.tla (WLoad, WOdd, WWord, WEven,      *)
+(* WDie/Restart; RG1, RWord, RG2 with the outcomes of the second load),    *)
+(* which the replay and trace bindings tie to the code; SegRefines.tla     *)
+(* has TLC check that ShmSeg (SC, warm starts) refines this module and     *)
+(* that its reachable states satisfy IndInv under the refinement mapping.  *)
 (***************************************************************************)
 EXTENDS Integers
 
@@ -36,7 +38,7 @@ VARIABLES
   \* @type: Int;
   w2,       \* second word
   \* @type: Str;
-  wpc,      \* "idle" | "odd" | "h1" | "h2" | "dead"
+  wpc,      \* "idle" | "ld" | "odd" | "h1" | "h2" | "dead"
   \* @type: Int;
   cur,      \* id of the publication being (or last) written
   \* @type: Int;
@@ -66,12 +68,13 @@ RU == UNCHANGED <<rpc, rg1, rv1, rv2, cgen, cpub>>
 WU == UNCHANGED <<gen, w1, w2, wpc, cur, done>>
 
 \* ------------------------------------------------------------------ writer (ShmWriter::write, death, warm restart)
-WOdd  == wpc = "idle" /\ gen' = (IF IsEven(gen) THEN gen + 1 ELSE gen) /\ cur' = cur + 1 /\ wpc' = "odd"
-         /\ UNCHANGED <<w1, w2, done>> /\ RU
+WLoad == wpc = "idle" /\ cur' = cur + 1 /\ wpc' = "ld" /\ UNCHANGED <<gen, w1, w2, done>> /\ RU
+WOdd  == wpc = "ld" /\ gen' = (IF IsEven(gen) THEN gen + 1 ELSE gen) /\ wpc' = "odd"
+         /\ UNCHANGED <<w1, w2, cur, done>> /\ RU
 WWord1 == wpc = "odd" /\ w1' = cur /\ wpc' = "h1" /\ UNCHANGED <<gen, w2, cur, done>> /\ RU
 WWord2 == wpc = "h1" /\ w2' = cur /\ wpc' = "h2" /\ UNCHANGED <<gen, w1, cur, done>> /\ RU
 WEven == wpc = "h2" /\ gen' = gen + 1 /\ done' = cur /\ wpc' = "idle" /\ UNCHANGED <<w1, w2, cur>> /\ RU
-WDie == wpc \in {"idle", "odd", "h1", "h2"} /\ wpc' = "dead" /\ UNCHANGED <<gen, w1, w2, cur, done>> /\ RU
+WDie == wpc \in {"idle", "ld", "odd", "h1", "h2"} /\ wpc' = "dead" /\ UNCHANGED <<gen, w1, w2, cur, done>> /\ RU
 WRestart == wpc = "dead" /\ wpc' = "idle" /\ UNCHANGED <<gen, w1, w2, cur, done>> /\ RU     \* usable segment: taken over in place
 
 \* ------------------------------------------------------------------ reader (ShmReader::snapshot)
@@ -93,14 +96,14 @@ RG2(r) ==
      THEN /\ cgen' = [cgen EXCEPT ![r] = rg1[r]] /\ cpub' = [cpub EXCEPT ![r] = rv1[r]]
           /\ rpc' = [rpc EXCEPT ![r] = "idle"] /\ UNCHANGED rg1
      ELSE /\ rg1' = [rg1 EXCEPT ![r] = IF IsEven(gen) THEN gen ELSE rg1[r]]
-          /\ rpc' = [rpc EXCEPT ![r] = "g1"] /\ UNCHANGED <<cgen, cpub>>
+          \* next attempt, or the retry budget ran out (bounded: C18; the call ends with an error, nothing is cached)
+          /\ \E nxt \in {"g1", "idle"} : rpc' = [rpc EXCEPT ![r] = nxt]
+          /\ UNCHANGED <<cgen, cpub>>
   /\ UNCHANGED <<rv1, rv2>> /\ WU
-\* the retry budget ran out (bounded: C18): the call ends with an error, nothing is cached
-RGiveUp(r) == rpc[r] \in {"g1", "d1", "d2"} /\ rpc' = [rpc EXCEPT ![r] = "idle"]
-              /\ UNCHANGED <<rg1, rv1, rv2, cgen, cpub>> /\ WU
 
-Next == WOdd \/ WWord1 \/ WWord2 \/ WEven \/ WDie \/ WRestart
-        \/ \E r \in Readers : RG1(r) \/ RD1(r) \/ RD2(r) \/ RG2(r) \/ RGiveUp(r)
+Next == WLoad \/ WOdd \/ WWord1 \/ WWord2 \/ WEven \/ WDie \/ WRestart
+        \/ \E r \in Readers : RG1(r) \/ RD1(r) \/ RD2(r) \/ RG2(r)
+vars == <<gen, w1, w2, wpc, cur, done, rpc, rg1, rv1, rv2, cgen, cpub>>
 
 \* ------------------------------------------------------------------ what is claimed
 \* a copy about to be accepted is one publication (C02) and the latest completed one (C03, FreshIsLatest)
@@ -113,11 +116,12 @@ ServeOk == \A r \in Readers : (gen = cgen[r] /\ gen # 0) => cpub[r] = done
 \* ------------------------------------------------------------------ the inductive strengthening
 TypeOK ==
   /\ gen >= 0 /\ cur >= 0 /\ done >= 0 /\ done <= cur
-  /\ wpc \in {"idle", "odd", "h1", "h2", "dead"}
+  /\ wpc \in {"idle", "ld", "odd", "h1", "h2", "dead"}
   /\ \A r \in Readers : rpc[r] \in {"idle", "g1", "d1", "d2"}
 
 WriterInv ==
-  /\ (wpc \in {"odd", "h1", "h2"} => (~IsEven(gen) /\ done < cur))
+  /\ (wpc \in {"odd", "h1", "h2"} => ~IsEven(gen))
+  /\ (wpc \in {"ld", "odd", "h1", "h2"} => done < cur)
   /\ (IsEven(gen) => (w1 = done /\ w2 = done))
   /\ (wpc = "h1" => w1 = cur)
   /\ (wpc = "h2" => (w1 = cur /\ w2 = cur))
@@ -132,7 +136,7 @@ IndInv == TypeOK /\ WriterInv /\ ReaderInv /\ AcceptOk /\ CacheOk /\ ServeOk
 
 IndInit ==
   /\ gen \in Int /\ w1 \in Int /\ w2 \in Int /\ cur \in Int /\ done \in Int
-  /\ wpc \in {"idle", "odd", "h1", "h2", "dead"}
+  /\ wpc \in {"idle", "ld", "odd", "h1", "h2", "dead"}
   /\ rpc \in [Readers -> {"idle", "g1", "d1", "d2"}]
   /\ rg1 \in [Readers -> Int] /\ rv1 \in [Readers -> Int] /\ rv2 \in [Readers -> Int]
   /\ cgen \in [Readers -> Int] /\ cpub \in [Readers -> Int]
